@@ -285,7 +285,7 @@ Proof.
   intros H. unfold zlen in H. assert (L : length c = 48%nat) by lia. unfold key_nonce, Crypt.slice. rewrite L.
   change KEYLEN with 32%nat. change NONCE with 12%nat. reflexivity.
 Qed.
-Lemma with_header_ok dst s : (8 <= length dst)%nat -> with_header dst s = Ok (put (put dst 0 header) 8 s).
+Lemma with_header_ok dst s : (8 <= length dst)%nat -> with_header dst s = Ok (put (gocopy dst header) 8 s).
 Proof.
   intros H. unfold with_header. cbv zeta. change copy_into with gocopy. rewrite gocopy_length.
   destruct (Nat.ltb_spec (length dst) 8); [lia|]. reflexivity.
@@ -302,60 +302,6 @@ Ltac ev2 := first
  | rewrite Equal_stdc | rewrite CBCEncrypt_stdc | rewrite GCMEncrypt_stdc | rewrite GCMDecrypt_stdc | rewrite CBCDecrypt_stdc
  | progress unfold E_SALT, E_CTLEN2, E_HDR_CBC, E_HDR
  | progress autounfold with go2v_aux ].
-
-Theorem code_SaltBySecretCBCEncrypt : forall osalt fuel p secret, (4 <= fuel)%nat ->
-  (forall s, osalt = Some s -> length s = 8%nat) ->
-  g_SaltBySecretCBCEncrypt fuel (stdc E D seal open md5 osalt) p secret = bytes_res9 (salt_cbc_encrypt E md5 osalt p secret).
-Proof.
-  intros osalt fuel p secret Hf Hs. unfold g_SaltBySecretCBCEncrypt.
-  pose proof (land15_bounds (zlen p) (zlen_nonneg p)) as Hl. pose proof (zlen_nonneg p) as Hp.
-  repeat ev2.
-  destruct osalt as [s|].
-  2:{ repeat ev2. reflexivity. }
-  specialize (Hs s eq_refl).
-  change (fill_loop md5 3 0 (zeros 16) secret s (repeat 0 48)) with (fill_cred md5 secret s).
-  unfold salt_cbc_encrypt, salt_cbc_parts. 
-  destruct (fill_cred md5 secret s) as [c|e|] eqn:HF; cbn [cred_res Crypt.bind bytes_res9 GoSem.bind].
-  3: reflexivity. 2:{ apply fill_loop_no_err in HF. contradiction. }
-  assert (Lc : zlen c = 48) by (apply fill_loop_len in HF; unfold zlen; rewrite HF; reflexivity).
-  repeat ev2.
-  rewrite key_iv_48 by assumption. cbn [Crypt.bind].
-  rewrite with_header_ok by (unfold zeros; rewrite repeat_length; change BS with 16%nat; lia). cbn [Crypt.bind].
-  match goal with |- context [zeros ?n2] => match goal with |- context [repeat 0 (Z.to_nat ?z)] =>
-    replace n2 with (Z.to_nat z) by (unfold cbc_encrypt_len, zlen; rewrite masked_land; change BS with 16%nat; change aes_block_size with 16; unfold zlen in *; lia) end end.
-  fold_nat. change BS with 16%nat. unfold zeros. change header with v_fixedSaltHeader.
-  match goal with |- context [put (put ?d 0%nat ?h) 8%nat s] => set (DST := put (put d 0%nat h) 8%nat s);
-    assert (LD : (16 <= length DST)%nat) by (unfold DST; rewrite !length_put; rewrite ?length_put, ?repeat_length; lia) end.
-  destruct (Nat.ltb_spec (length DST) 16); [lia|].
-  match goal with |- context [buf_res _ ?r] => destruct r end; cbn [buf_res GoSem.bind bytes_res9]; cbv beta iota; rewrite ?firstn_skipn; reflexivity.
-Qed.
-
-Theorem code_SaltBySecretGCMEncrypt : forall osalt fuel p secret ad, (4 <= fuel)%nat ->
-  (forall s, osalt = Some s -> length s = 8%nat) ->
-  g_SaltBySecretGCMEncrypt fuel (stdc E D seal open md5 osalt) p secret ad = bytes_res9 (salt_gcm_encrypt seal md5 osalt p secret ad).
-Proof.
-  intros osalt fuel p secret ad Hf Hs. unfold g_SaltBySecretGCMEncrypt.
-  pose proof (zlen_nonneg p) as Hp.
-  repeat ev2.
-  destruct osalt as [s|].
-  2:{ repeat ev2. reflexivity. }
-  specialize (Hs s eq_refl).
-  change (fill_loop md5 3 0 (zeros 16) secret s (repeat 0 48)) with (fill_cred md5 secret s).
-  unfold salt_gcm_encrypt.
-  destruct (fill_cred md5 secret s) as [c|e|] eqn:HF; cbn [cred_res Crypt.bind bytes_res9 GoSem.bind].
-  3: reflexivity. 2:{ apply fill_loop_no_err in HF. contradiction. }
-  assert (Lc : zlen c = 48) by (apply fill_loop_len in HF; unfold zlen; rewrite HF; reflexivity).
-  repeat ev2.
-  rewrite key_nonce_48 by assumption. cbn [Crypt.bind].
-  rewrite with_header_ok by (unfold zeros; rewrite repeat_length; change BS with 16%nat; lia). cbn [Crypt.bind].
-  match goal with |- context [zeros ?n2] => match goal with |- context [repeat 0 (Z.to_nat ?z)] =>
-    replace n2 with (Z.to_nat z) by (unfold gcm_encrypt_len, zlen; change BS with 16%nat; change gcm_tag_size with 16; unfold zlen in *; lia) end end.
-  fold_nat. change BS with 16%nat. unfold zeros. change header with v_fixedSaltHeader.
-  match goal with |- context [put (put ?d 0%nat ?h) 8%nat s] => set (DST := put (put d 0%nat h) 8%nat s);
-    assert (LD : (16 <= length DST)%nat) by (unfold DST; rewrite !length_put; rewrite ?length_put, ?repeat_length; lia) end.
-  destruct (Nat.ltb_spec (length DST) 16); [lia|].
-  match goal with |- context [buf_res _ ?r] => destruct r end; cbn [buf_res GoSem.bind bytes_res9]; cbv beta iota; rewrite ?firstn_skipn; reflexivity.
-Qed.
 
 (* ---- the decryptors: both sides are evaluated together *)
 Lemma slice_from_nat (l : bytes) a : (a <= length l)%nat -> Crypt.slice l a (length l) = Some (skipn a l).
@@ -384,14 +330,25 @@ Proof.
 Qed.
 Lemma gcm_decrypt_err_nz dst ct k n ad e : gcm_decrypt open dst ct k n ad = Err e -> e <> 0.
 Proof. unfold gcm_decrypt. intros H. err_nz H. Qed.
-Ltac lensn := unfold zlen in *; lia.
+Lemma skipn_skipn9 (l : list Z) : forall x y, skipn x (skipn y l) = skipn (y + x) l.
+Proof. induction l as [|h t IH]; intros x y; [destruct x, y; reflexivity|]. destruct y; [reflexivity|]. cbn [skipn Nat.add]. apply IH. Qed.
+Lemma cpy_exact d a b src : Z.of_nat (length src) = b - a -> 0 <= a -> b <= zlen d -> cpy d a b src = put d (Z.to_nat a) src.
+Proof.
+  intros Hl Ha Hb. unfold cpy, put, zlen in *. f_equal.
+  rewrite gocopy_exact by (rewrite firstn_length, skipn_length; lia).
+  rewrite gocopy_fit by (rewrite skipn_length; lia). f_equal. rewrite skipn_skipn9. f_equal. lia.
+Qed.
+Lemma firstn_skipn_all (l : list Z) a k : (length l <= a + k)%nat -> firstn k (skipn a l) = skipn a l.
+Proof. intros H. apply firstn_all2. rewrite skipn_length. lia. Qed.
+Ltac lensn := unfold zlen in *; repeat first [rewrite repeat_length | rewrite gocopy_length | rewrite length_put by lensn]; lia.
+Ltac lenc := unfold cbc_encrypt_len, gcm_encrypt_len; rewrite ?masked_land; change aes_block_size with 16; change gcm_tag_size with 16; lensn.
 Ltac dec_if3 := match goal with |- context [if ?c then _ else _] =>
   match c with context [if _ then _ else _] => fail 1 | _ => idtac end;
   first [ replace c with false by (symmetry; lens) | replace c with true by (symmetry; lens)
         | replace c with false by (symmetry; lensn) | replace c with true by (symmetry; lensn)
         | match c with context [?v] => is_var v; match type of v with bool => destruct v end end
         | let Hc := fresh "Hc" in destruct c eqn:Hc ] end.
-Ltac not_if r := lazymatch r with context [if _ then _ else _] => fail | _ => idtac end.
+Ltac not_if r := lazymatch r with context [if _ then _ else _] => fail | context [Crypt.bind _ _] => fail | _ => idtac end.
 Ltac dres r := lazymatch type of r with res (_ * _) => destruct r as [[? ?]| |] eqn:? | _ => destruct r eqn:? end.
 Ltac ev3n := first
  [ match goal with
@@ -421,14 +378,25 @@ Ltac ev3n := first
  | progress autounfold with go2v_aux
  | rewrite to_nat_zlen
  | rewrite m_make_ok by first [lens | apply zlen_nonneg]
+ | progress unfold copy_all
+ | match goal with |- context [put ?d 0%nat ?x] => change (put d 0%nat x) with (gocopy d x) end
+ | rewrite m_copy_put by first [lens | lensn]
+ | rewrite m_copy_cpy by first [lens | lensn]
+ | rewrite cpy_exact by lensn
+ | rewrite firstn_skipn
+ | rewrite firstn_skipn_all by lensn
+ | rewrite with_header_ok by lensn
+ | match goal with |- context [repeat 0 (Z.to_nat ?z)] => match goal with |- context [repeat 0 ?n2] =>
+     lazymatch n2 with Z.to_nat _ => fail | _ => idtac end; replace n2 with (Z.to_nat z) by lenc end end
  | rewrite m_slice_all
- | rewrite m_slice_from by lens
+ | rewrite m_slice_from by first [lens | lensn]
  | rewrite m_slice_pre by first [lens | lensn]
  | rewrite m_slice_neg by first [lens | lensn]
  | rewrite m_slice_nat0
- | rewrite m_slice_gen by lens
+ | rewrite m_slice_gen by first [lens | lensn]
  | rewrite splice_all
  | rewrite code_fillCred by assumption
+ | rewrite code_fillSaltAndCred by assumption
  | rewrite Equal_stdc | rewrite CBCEncrypt_stdc | rewrite GCMEncrypt_stdc | rewrite GCMDecrypt_stdc | rewrite CBCDecrypt_stdc
  | rewrite slice_from_nat by lensn
  | rewrite slice_ok by lensn
@@ -440,6 +408,7 @@ Ltac ev3 := first [ ev3n
    | |- context [of_opt ?r] => not_if r; destruct r eqn:?
    | |- context [lift ?r] => not_if r; destruct r eqn:?
    | |- context [Crypt.bind ?r _] => not_if r; dres r
+   | |- context [buf_res _ ?r] => not_if r; destruct r eqn:?
    | |- context [cred_res ?r] => not_if r; destruct r eqn:?
    | |- context [of_opt ?r] => not_if r; destruct r eqn:?
    | |- context [lift ?r] => not_if r; destruct r eqn:?
@@ -462,5 +431,24 @@ Proof.
   intros osalt fuel ct secret ad reuse Hf. unfold g_SaltBySecretGCMDecrypt, salt_gcm_decrypt.
   pose proof (zlen_nonneg ct) as Hz.
   repeat ev3. all: feq9.
+Qed.
+
+Theorem code_SaltBySecretCBCEncrypt : forall osalt fuel p secret, (4 <= fuel)%nat ->
+  (forall s, osalt = Some s -> length s = 8%nat) ->
+  g_SaltBySecretCBCEncrypt fuel (stdc E D seal open md5 osalt) p secret = bytes_res9 (salt_cbc_encrypt E md5 osalt p secret).
+Proof.
+  intros osalt fuel p secret Hf Hs. unfold g_SaltBySecretCBCEncrypt, salt_cbc_encrypt, salt_cbc_parts.
+  pose proof (land15_bounds (zlen p) (zlen_nonneg p)) as Hl. pose proof (zlen_nonneg p) as Hp.
+  destruct osalt as [s|]; [specialize (Hs s eq_refl)|clear Hs].
+  all: repeat ev3. all: feq9.
+Qed.
+Theorem code_SaltBySecretGCMEncrypt : forall osalt fuel p secret ad, (4 <= fuel)%nat ->
+  (forall s, osalt = Some s -> length s = 8%nat) ->
+  g_SaltBySecretGCMEncrypt fuel (stdc E D seal open md5 osalt) p secret ad = bytes_res9 (salt_gcm_encrypt seal md5 osalt p secret ad).
+Proof.
+  intros osalt fuel p secret ad Hf Hs. unfold g_SaltBySecretGCMEncrypt, salt_gcm_encrypt.
+  pose proof (zlen_nonneg p) as Hp.
+  destruct osalt as [s|]; [specialize (Hs s eq_refl)|clear Hs].
+  all: repeat ev3. all: feq9.
 Qed.
 End S.
